@@ -692,6 +692,7 @@ class Exec:
             if isinstance(r, Agg) and r.ty == 'Box':
                 rr = unbox_ref(r); return rr.c, rr.k
             if isinstance(r, (PyVec, Str, PyMap, PySet)): return c, kk          # unsized / by-handle values
+            if isinstance(r, Opaque) and hasattr(r, 'bs'): return c, kk            # byte-string constant (&[u8; N]): by handle
             raise Unsupported('deref of %r' % (r,))
         if k == 'downcast':
             c, kk = s.slot(frame, p[1]); v = c[kk]
